@@ -873,6 +873,10 @@ _SER_TAIL = "            for kv in k, v:\n                w(pack(\"!H\", len(kv)
 _SER_GEN_TAIL = "            for kv in k, v:\n                yield pack(\"!H\", len(kv))\n                yield kv\n        yield pack(\"!H\", 0)\n"
 
 MUTANTS = [
+    Mutant("second-pass-encodes-value-before-key", AMP, "            for kv in k, v:\n                w(pack(\"!H\", len(kv)))\n                w(kv)\n        w(pack(\"!H\", 0))\n",
+           "        for pair in i:\n            for kv in reversed(pair):\n                L += (pack(\"!H\", len(kv)), kv)\n        L.append(pack(\"!H\", 0))\n", expect_rule="box/wire-form"),
+    Mutant("second-pass-extends-with-the-prefix-only", AMP, "            for kv in k, v:\n                w(pack(\"!H\", len(kv)))\n                w(kv)\n        w(pack(\"!H\", 0))\n",
+           "        for pair in i:\n            for kv in pair:\n                L += (pack(\"!H\", len(kv)),)\n        L.append(pack(\"!H\", 0))\n", expect_rule="box/wire-form"),
     # a refused box leaves nothing on the wire
     Mutant("sendbox-writes-entry-by-entry", AMP, "            self.transport.write(box.serialize())\n",
            "            for key in sorted(box):\n                self.transport.write(AmpBox({key: box[key]}).serialize()[:-2])\n            self.transport.write(b\"\\x00\\x00\")\n",
@@ -934,6 +938,8 @@ MUTANTS = [
 ]
 
 SILENT = [
+    Silent("serialize-validates-every-pair-then-encodes-in-a-second-pass", AMP, "            for kv in k, v:\n                w(pack(\"!H\", len(kv)))\n                w(kv)\n        w(pack(\"!H\", 0))\n",
+           "        for pair in i:\n            for kv in pair:\n                L += (pack(\"!H\", len(kv)), kv)\n        L.append(pack(\"!H\", 0))\n"),
     Silent("serialize-joins-a-validating-generator", AMP, _SER_HEAD, _SER_GEN_HEAD, more=[(AMP, _SER_TAIL, _SER_GEN_TAIL)]),
     Silent("sendbox-exhausts-the-generator-before-writing", AMP, "            self.transport.write(box.serialize())\n", "            self.transport.writeSequence(list(box._serializedParts()))\n",
            more=[(AMP, _SER_HEAD, _SER_GEN_HEAD), (AMP, _SER_TAIL, _SER_GEN_TAIL)]),
